@@ -20,6 +20,8 @@ import (
 	"fmt"
 	"io"
 	"sync"
+
+	"github.com/dapr/kit/verifhook"
 )
 
 const (
@@ -193,6 +195,7 @@ func Decrypt(in io.Reader, opts DecryptOptions) (io.Reader, error) {
 	if err != nil {
 		return nil, fmt.Errorf("invalid header: %w", err)
 	}
+	verifhook.Point("enc.decrypt.afterReadHeader")
 
 	// Parse the manifest to get the key name and validate it
 	var manifestObj Manifest
